@@ -417,7 +417,14 @@ func (ri *ReservationInfo) UpdateReservation(r *schedulingv1alpha1.Reservation) 
 	ri.Reservation = r
 	ri.Pod = reservationutil.NewReservePod(r)
 	ri.AllocatablePorts = util.RequestedHostPorts(ri.Pod)
-	if ri.Allocated != nil {
+	if len(ri.AssignedPods) > 0 {
+		// the reserved resource names may have changed, a newly reserved resource must also count the pods assigned before.
+		var allocated corev1.ResourceList
+		for _, assignedPod := range ri.AssignedPods {
+			allocated = quotav1.Add(allocated, quotav1.Mask(assignedPod.Requests, ri.ResourceNames))
+		}
+		ri.Allocated = allocated
+	} else if ri.Allocated != nil {
 		ri.Allocated = quotav1.Mask(ri.Allocated, ri.ResourceNames)
 	}
 	reserved := util.GetNodeReservationFromAnnotation(r.Annotations)
